@@ -276,6 +276,14 @@ func c02Bubble(tp *core.Tape, e *core.Env) {
 		e.Undecided("coordinator rejects config: %v", err)
 		return
 	}
+	if tp.Bool("earlier_round", 1, 3) {
+		// discovery had other data before: only the latest round counts (as in Prometheus, where a
+		// new set of target groups replaces the previous one)
+		prelim, _ := c02Groups(tp, g)
+		w.SD <- map[string][]*targetgroup.Group{"jx": prelim}
+		synctest.Wait()
+		e.Probe("earlier_discovery_round")
+	}
 	w.SD <- map[string][]*targetgroup.Group{"jx": groups}
 	synctest.Wait()
 	act := w.TD.ActiveTargetsByHash()
